@@ -426,6 +426,10 @@ def schema_rows(c, x):
 
 def impl_need(c, x):
     """largest unit among the zero-copy blocks recorded by serialize_with_schema (None if some unit is not a power of two)"""
+    if tinfo(c, x).get("pow2") == "0":
+        # the type holds a range whose unit is not a power of two (class D10); an empty sequence of
+        # it records no block, so the rows alone would not show it
+        return None
     nd = 1
     for (field, off, size, align) in schema_rows(c, x):
         if field.endswith("zero") and align > 0:
